@@ -239,4 +239,72 @@ theorem Y_parAll (nets : List (Net K)) (x : K) : YparO x (parAll nets) = (nets.m
     show YparO x (parO (some n) (parAll rest)) = _
     rw [Y_parO, ih]; simp [YparO]
 
+theorem Y_of_Z (t : Option (Net K)) (x : K) : YparO x t = 1 / ZserO x t := by
+  cases t <;> simp [YparO, ZserO]
+
+theorem Z_of_Y (t : Option (Net K)) (x : K) : ZserO x t = 1 / YparO x t := by
+  cases t <;> simp [YparO, ZserO]
+
+/-- Cauer II ladder (coefficients `q·x^(−k)` of the ADMITTANCE): at an even position the built network
+    has admittance `cfVal`, at an odd position impedance `cfVal` -/
+theorem cauerII_value (x : K) (cs : List (K × Nat)) (first even : Bool) (net : Option (Net K))
+    (h : cauerII first even cs = some net) (hne : cs ≠ []) :
+    (even = true → YparO x net = cfVal true x cs) ∧ (even = false → ZserO x net = cfVal true x cs) := by
+  induction cs generalizing first even net with
+  | nil => exact absurd rfl hne
+  | cons c rest ih =>
+    obtain ⟨q, k⟩ := c
+    simp only [cauerII] at h
+    cases ht : cauerII false (!even) rest with
+    | none => simp [ht] at h
+    | some tail =>
+      simp only [ht] at h
+      -- value of the tail (absent when `rest = []`)
+      have htail : rest ≠ [] → ((!even) = true → YparO x tail = cfVal true x rest) ∧
+          ((!even) = false → ZserO x tail = cfVal true x rest) := fun hr => ih false (!even) tail ht hr
+      have htail0 : rest = [] → tail = none := by
+        intro hr; subst hr; simpa [cauerII] using ht.symm
+      cases even with
+      | true =>
+        refine ⟨fun _ => ?_, fun h0 => by simp at h0⟩
+        simp only [if_true] at h
+        have hcf : cfVal true x ((q, k) :: rest) = monoVal true q k x + YparO x tail := by
+          cases rest with
+          | nil => simp [cfVal, htail0 rfl, YparO]
+          | cons r rs =>
+            have := (htail (by simp)).2 (by simp)
+            simp only [cfVal]; rw [Y_of_Z, this]
+        rw [hcf]
+        by_cases hfq : (first && decide (q = 0)) = true
+        · simp only [hfq, if_true, Option.some.injEq] at h
+          subst h
+          have hq : q = 0 := by
+            simp only [Bool.and_eq_true, decide_eq_true_eq] at hfq; exact hfq.2
+          simp [monoVal, hq]
+        · simp only [hfq, if_false, Bool.false_eq_true] at h
+          by_cases hq : q = 0
+          · simp [hq] at h
+          · simp only [hq, if_false, Option.map_eq_some_iff] at h
+            obtain ⟨s, hs, rfl⟩ := h
+            have hz := series_forms_value _ x s (Or.inl hs)
+            rw [monoCollInv_value _ _ _ _ (other_false_of_seriesRL hs)] at hz
+            rw [Y_parO, Y_of_Z s x, hz]; simp; ring
+      | false =>
+        refine ⟨fun h0 => by simp at h0, fun _ => ?_⟩
+        simp only [Bool.false_eq_true, if_false] at h
+        have hcf : cfVal true x ((q, k) :: rest) = monoVal true q k x + ZserO x tail := by
+          cases rest with
+          | nil => simp [cfVal, htail0 rfl, ZserO]
+          | cons r rs =>
+            have := (htail (by simp)).1 (by simp)
+            simp only [cfVal]; rw [Z_of_Y, this]
+        rw [hcf]
+        by_cases hq : q = 0
+        · simp [hq] at h
+        · simp only [hq, if_false, Option.map_eq_some_iff] at h
+          obtain ⟨s, hs, rfl⟩ := h
+          have hy := parallel_forms_value _ x s (Or.inr (Or.inr (Or.inl hs)))
+          rw [monoCollInv_value _ _ _ _ (other_false_of_parallelGC hs)] at hy
+          rw [Z_serO, Z_of_Y s x, hy]; simp; ring
+
 end Lcapy.Synth
